@@ -221,7 +221,8 @@ CHECKS = {
         also=dict(target="t_ascii", workers=4, quick_max_success=6000, thorough_max_success=60000, len_scale=0.6),
         quick=dict(workers=16, max_success=600, max_size=100, len_scale=0.6, timeout=900),
         thorough=dict(workers=16, max_success=2000, max_size=100, len_scale=1.5, timeout=3600),
-        rule=("cases = generated polyhedral (random histories after garbage collection, non-manifold allowed), tetrahedral and "
+        rule=("cases = generated polyhedral (random histories after garbage collection, non-manifold allowed), tetrahedral (one in five "
+              "with the single-precision Vec3f kernel, i.e. float vertex encoding, also read into a double precision mesh) and "
               "hexahedral meshes with up to 10 persistent properties over all 30 registered OVMB value types (special "
               "floats, NaN payloads, empty/long/binary strings, invalid handles) on all seven entity kinds, random "
               "names and defaults, directed index-width boundary sizes (254-257, 65534-65537 vertices; 127-129, "
